@@ -316,6 +316,35 @@ def dedup : List Nat → List Nat
   | [] => []
   | x :: xs => if x ∈ xs then dedup xs else x :: dedup xs
 
+/-! ### MST minimality certificate (cycle property) -/
+
+/-- an edge up to orientation: (smaller endpoint, larger endpoint, weight) -/
+def canonE (e : Edge) : Edge := (min e.1 e.2.1, max e.1 e.2.1, e.2.2)
+
+def wsum (T : List Edge) : Nat := (T.map (·.2.2)).sum
+
+/-- the tree edges of weight at most `w` -/
+def lightT (T : List Edge) (w : Nat) : List Edge := T.filter (fun e => decide (e.2.2 ≤ w))
+
+/-- the nodes weakly connected to node 0, each once -/
+def compNodes (E : List Edge) : List Nat := dedup (reachSet (sym (pairs E)) 0)
+
+/-- cycle property: the endpoints of every edge of node 0's component are joined inside `T`
+by edges that are not heavier than that edge -/
+def cycleCert (E T : List Edge) : Bool :=
+  let R := reachSet (sym (pairs E)) 0
+  E.all (fun g => !decide (g.1 ∈ R) || decide (g.2.1 ∈ reachSet (sym (pairs (lightT T g.2.2))) g.1))
+
+/-- checker for a reported minimum spanning tree of node 0's component of the undirected
+multigraph `E`: real edges (either orientation, with their weight), the reported total, one
+edge fewer than nodes, connecting the whole component, and the cycle property -/
+def mstMinCheck (E : List Edge) (total : Nat) (T : List Edge) : Bool :=
+  T.all (fun e => decide (canonE e ∈ E.map canonE))
+  && wsum T == total
+  && T.length + 1 == (compNodes E).length
+  && (compNodes E).all (fun x => decide (x ∈ reachSet (sym (pairs T)) 0))
+  && cycleCert E T
+
 /-- the `HashSet` of undirected neighbours the Rust code builds (some enumeration order) -/
 def nbrs (vw : View) (u : Nat) : List Nat := dedup (vw.succ u ++ vw.pred u)
 
